@@ -5926,8 +5926,15 @@ class Lazy(Subconstruct):
             obj = self.subcon._parsereport(stream, context, path)
             stream_seek(stream, fallback, 0, path)
             return obj
-        len = self.subcon._actualsize(stream, context, path)
-        stream_seek(stream, len, 1, path)
+        try:
+            size = self.subcon._actualsize(stream, context, path)
+        except SizeofError:
+            # the subcon cannot be measured (eg. VarInt CString): parse it now to find where it ends
+            stream_seek(stream, offset, 0, path)
+            obj = self.subcon._parsereport(stream, context, path)
+            return lambda: obj
+        # measuring may have read a length field, so skip from the remembered offset
+        stream_seek(stream, offset + size, 0, path)
         return execute
 
     def _build(self, obj, stream, context, path):
